@@ -254,8 +254,9 @@ def c16(cx):
 def c14(cx):
     build_harness(cx)
     thorough = cx.tier == "thorough"
-    b1 = model_check(cx, "MC_C14", consts=({"MaxRows": 2, "MaxCuts": 2} if thorough else None), workers=(8 if thorough else 1),
-                     timeout=3000)
+    # thorough: up to two cuts per scenario (measured: 291k states / 36.8k scenarios in 30 s); two-row tables
+    # with every cut set do not finish in an hour and are left to the random driver
+    b1 = model_check(cx, "MC_C14", consts=({"MaxCuts": 2} if thorough else None), timeout=3000)
     files = [("tlc", subsample(cx, b1, 60000 if thorough else 5000))]
     files.append(("rand", gen_random(cx, "C14", 20000 if thorough else 1500)))
     for tag, b in files:
